@@ -45,6 +45,11 @@ pub struct Case {
     /// a server may decline, e.g. when the result set no longer matches what was prepared) - without a new id
     #[serde(default)]
     pub server_sends_metadata_anyway: bool,
+    /// the PREPARED response describes no result columns (as for statements whose result shape the server does
+    /// not know at preparation time), yet executions return rows: there is nothing to cache, so the rows can only
+    /// be read with metadata sent along
+    #[serde(default)]
+    pub columnless_prepared: bool,
     pub steps: Vec<Step>,
 }
 
@@ -91,6 +96,7 @@ struct St {
     text: String,
     ext: bool,
     sends_metadata_anyway: bool,
+    columnless: bool,
     version: Mutex<u32>,
     nodes: Mutex<Vec<NodeState>>,
     seen: Mutex<Vec<Seen>>,
@@ -137,11 +143,15 @@ impl Script for St {
                 pk_indexes: vec![],
                 cols: vec![ColSpec { ks: "ks".into(), table: "t".into(), name: "k".into(), typ: WType::Std(MType::Native(Nat::Int)) }],
             },
-            result: ResultMeta {
-                global_spec: true,
-                col_count: cols.len() as i32,
-                cols: cols.iter().map(|(n, t)| ColSpec { ks: "ks".into(), table: "t".into(), name: n.clone(), typ: WType::Std(t.clone()) }).collect(),
-                ..Default::default()
+            result: if self.columnless {
+                ResultMeta { no_metadata: true, col_count: 0, cols: vec![], ..Default::default() }
+            } else {
+                ResultMeta {
+                    global_spec: true,
+                    col_count: cols.len() as i32,
+                    cols: cols.iter().map(|(n, t)| ColSpec { ks: "ks".into(), table: "t".into(), name: n.clone(), typ: WType::Std(t.clone()) }).collect(),
+                    ..Default::default()
+                }
             },
         }))
     }
@@ -218,6 +228,7 @@ pub fn oracle(c: &Case) -> Verdict {
         text: text.clone(),
         ext,
         sends_metadata_anyway: c.server_sends_metadata_anyway,
+        columnless: c.columnless_prepared,
         version: Mutex::new(0),
         nodes: Mutex::new((0..n_nodes).map(|_| NodeState { prepared: false, id_changed: false }).collect()),
         seen: Mutex::new(vec![]),
@@ -375,8 +386,11 @@ pub fn oracle(c: &Case) -> Verdict {
                         ever_id_changed = true;
                     }
                 } else if *id_returned == my_id {
-                    announced = Some(*version);
-                    announced_all.push(*version);
+                    // a PREPARED response without result columns announces nothing
+                    if !c.columnless_prepared {
+                        announced = Some(*version);
+                        announced_all.push(*version);
+                    }
                 } else {
                     ever_id_changed = true;
                 }
@@ -503,6 +517,7 @@ pub fn oracle(c: &Case) -> Verdict {
     Ok(CaseInfo::new(nt_evict_after_change || nt_batch_evicted)
         .class_if(ext, "metadata_id_extension")
         .class_if(c.use_cached_metadata, "cached_result_metadata")
+        .class_if(c.columnless_prepared, "prepared_without_result_columns")
         .class_if(nt_evict_after_change, "evicted_after_schema_change")
         .class_if(nt_batch_evicted, "batch_with_evicted_statement")
         .class_if(ever_id_changed, "id_changed_on_reprepare"))
@@ -524,13 +539,13 @@ pub fn case() -> BoxedStrategy<Case> {
         2 => Just(Step::ExecuteIter),
         2 => Just(Step::ExecuteIterEvictMidway),
     ];
-    (1u8..=3, any::<bool>(), any::<bool>(), prop::bool::weighted(0.25), proptest::collection::vec(step, 1..=12))
-        .prop_map(|(nodes, metadata_id_ext, use_cached_metadata, server_sends_metadata_anyway, steps)| Case { nodes, metadata_id_ext, use_cached_metadata, server_sends_metadata_anyway, steps })
+    (1u8..=3, any::<bool>(), any::<bool>(), prop::bool::weighted(0.25), prop::bool::weighted(0.15), proptest::collection::vec(step, 1..=12))
+        .prop_map(|(nodes, metadata_id_ext, use_cached_metadata, server_sends_metadata_anyway, columnless_prepared, steps)| Case { nodes, metadata_id_ext, use_cached_metadata, server_sends_metadata_anyway, columnless_prepared, steps })
         .boxed()
 }
 
 pub fn run(ctx: &Ctx, rep: &mut Report) {
-    rep.rule = "Cases: a history of 1..12 steps over a prepared statement on a 1..3-node mock cluster: server-side events {evict on a node, schema change (new result columns, with the extension a new metadata id; with or without cache flush), node starts returning a different id on PREPARE} interleaved with client operations {execute_unpaged, batch containing the prepared statement, batch containing it as an unprepared string with values (prepared on the fly; optionally forgotten again before the BATCH arrives), execute_iter over two pages (optionally evicted after the first page)}; with/without the metadata-id extension and with/without use_cached_result_metadata. The mock behaves as a server: UNPREPARED for unknown ids, metadata omitted only when asked (and, with the extension, only when the presented id is current), new id + metadata otherwise; in a quarter of the cases the nodes send the metadata along even when asked to skip it (without a new id), which must then be the metadata used. Oracle on the frame log and the caller's results: after UNPREPARED the same connection gets PREPARE then the identical EXECUTE/BATCH; a different id on re-prepare gives an error and no further EXECUTE; result column specs are those sent along or, if omitted, those most recently announced; rows decoded with the matching metadata equal the encoded rows; with the extension every skip-metadata EXECUTE presents the most recently announced id. Non-trivial = an eviction after a schema change, or a batch hitting an evicted statement.".into();
+    rep.rule = "Cases: a history of 1..12 steps over a prepared statement on a 1..3-node mock cluster: server-side events {evict on a node, schema change (new result columns, with the extension a new metadata id; with or without cache flush), node starts returning a different id on PREPARE} interleaved with client operations {execute_unpaged, batch containing the prepared statement, batch containing it as an unprepared string with values (prepared on the fly; optionally forgotten again before the BATCH arrives), execute_iter over two pages (optionally evicted after the first page)}; with/without the metadata-id extension and with/without use_cached_result_metadata. The mock behaves as a server: UNPREPARED for unknown ids, metadata omitted only when asked (and, with the extension, only when the presented id is current), new id + metadata otherwise; in a quarter of the cases the nodes send the metadata along even when asked to skip it (without a new id), which must then be the metadata used; in 15% of the cases the PREPARED responses describe no result columns although executions return rows (nothing can be cached: the rows are readable only with metadata sent along). Oracle on the frame log and the caller's results: after UNPREPARED the same connection gets PREPARE then the identical EXECUTE/BATCH; a different id on re-prepare gives an error and no further EXECUTE; result column specs are those sent along or, if omitted, those most recently announced; rows decoded with the matching metadata equal the encoded rows; with the extension every skip-metadata EXECUTE presents the most recently announced id. Non-trivial = an eviction after a schema change, or a batch hitting an evicted statement.".into();
     rep.trusted_base = vec!["mock cluster behaving per the protocol spec for UNPREPARED / skip-metadata / metadata-id semantics".into()];
     rep.assumptions = vec!["operations are issued sequentially (so 'most recently announced' is well defined); concurrent callers are not generated".into()];
     if let Some((check, case_v)) = &ctx.replay {
